@@ -135,7 +135,7 @@ def pipeline(ctx, T, bg_mc, bg_blocks):
     ctx.extra["replay_actions"] = acts
     # 4. replay + free-running runs on the real machine (one test binary)
     go = ctx.gotest(PKG, "^TestVerif_C14_(Replay|Free)$", ["c14_test.go"], inputs={"behaviours.ndjson": beh},
-                    env={"VERIF_RUNS": ctx.pick(120, 600)}, label="state", timeout=ctx.pick(600, 3000))
+                    env={"VERIF_RUNS": ctx.pick(120, 400)}, label="state", timeout=ctx.pick(600, 3000))
     ctx.absorb(go)
     hung = (go.reports.get("free", {}).get("extra") or {}).get("hung")
     if hung and not ctx.violations:
